@@ -117,14 +117,8 @@ cfg_digit!(
             }
 
             #[inline]
-            fn last(self) -> Option<u32> {
-                self.data.last().map(|&last| {
-                    if self.last_hi_is_zero {
-                        last as u32
-                    } else {
-                        (last >> 32) as u32
-                    }
-                })
+            fn last(mut self) -> Option<u32> {
+                self.next_back()
             }
 
             #[inline]
